@@ -101,6 +101,37 @@ def register(reg, prog):
             ex.write_field(st, o, k, OPT_VIEWS[k], v)
         return [(st, m)]
 
+    @reg.external('repo:aiocoap.message:Message.copy')
+    def _copy(ex, st, args, kw, node):
+        """Message.copy(**overrides): assumed contract (conformance-tested natively): a new Message with a new Options
+        object; every field and option view equals the original's unless overridden by keyword."""
+        src = args[0]
+        kw = dict(kw)
+        MF = reg.classes['Message'].fields
+        m = ex.new_object(st, 'Message')
+        for attr in ('code', 'payload', 'transport_tuning', 'mtype', 'mid', 'token', 'remote', 'direction', 'version', 'request',
+                     '_original_request_path'):
+            if attr in kw and attr in ('code', 'payload', 'transport_tuning', 'mtype', 'mid', 'token', 'remote'):
+                v = kw.pop(attr)
+                if attr == 'token' and isinstance(v, VNone):
+                    v = VBytes.const(b'')     # Message(token=None)... copy() passes token through; None is replaced on send
+            else:
+                v = ex.read_field(st, src, attr, MF[attr])
+            ex.write_field(st, m, attr, MF[attr], v)
+        so = ex.read_field(st, src, 'opt', MF['opt'])
+        o = ex.new_object(st, 'Options')
+        d = ex.new_dict(st, INT, List(Ref('OptionType')))
+        ex.write_field(st, o, '_options', reg.classes['Options'].fields['_options'], d)
+        reg.assume('A-COPYOPT: Message.copy copies the option views; the codec dictionary of the copy is not related to the original (A-OPTVIEW)')
+        for name, ty in OPT_VIEWS.items():
+            v = kw.pop(name) if name in kw else ex.read_field(st, so, name, ty)
+            ex.write_field(st, o, name, ty, v)
+        ex.write_field(st, m, 'opt', MF['opt'], o)
+        if kw:
+            ex.unsupported(node, 'Message.copy(%s=...)' % ', '.join(kw))
+        st.log.append(('copy', src, m))
+        return [(st, m)]
+
     def default_tuning(ex, st, tt):
         from aiocoap.numbers.constants import TransportTuning
         for name, ty in reg.classes['TransportTuning'].fields.items():
